@@ -201,6 +201,23 @@ func TestProp_Rotation(t *testing.T) {
 				counter++
 				nw := vkit.NewActor(fmt.Sprintf("N%d", counter))
 				inner := nw.Request()
+				// the inner bundle has an id field of its own that the requester may fill
+				// with anything (library-built requests leave it empty): no bearing
+				if bid := rapid.SampledFrom([]string{"unset", "unset", "garbage", "key-id-of-a-record", "own-key-id"}).Draw(t, "innerBundleId"); bid != "unset" {
+					info := nw.Info()
+					switch bid {
+					case "garbage":
+						info.Id = "no-such-record"
+					case "own-key-id":
+						info.Id = nw.KeyID
+					default:
+						if len(present) > 0 {
+							info.Id = records[present[rapid.IntRange(0, len(present)-1).Draw(t, "innerBundleIdOf")]].actor.KeyID
+						}
+					}
+					inner = vkit.Sign(info, nw.CertPriv)
+					flags["inner-bundle-id-field-set"] = true
+				}
 				needSkew := false
 				switch rp.Inner {
 				case "replay":
